@@ -9,6 +9,7 @@
 From Coq Require Import ZArith QArith List Bool.
 Import ListNotations.
 From GV Require Import Common.Wire.
+From GV Require gen.Gen_datamut.
 Open Scope Z_scope.
 
 Definition cid := Z.
@@ -359,6 +360,55 @@ Definition reorder (l : list cid) (d : ds) : option ds :=
   if negb (Nat.eqb (length l) (length (dcomps d))) || negb (subsetz l (keys (dcomps d))) || negb (subsetz (keys (dcomps d)) l) then None
   else Some (mkds (dshape d) (map (fun c => (c, match assoc c (dcomps d) with Some k => k | None => Pixel (-1) end)) l)).
 
+
+(* ---------- the same mutations through Data.remove_component / _removed_derived_that_depend_on / update_id /
+   reorder_components as REGENERATED from glue/core/data.py on every run (coq/gen/Gen_datamut.v), instantiated with the
+   component table as the whole object state (no hub, no pixel / world id lists) ---------- *)
+Definition is_derived_comp (k : comp) : bool := match k with Derived _ _ => true | _ => false end.
+Fixpoint map_expr (g : cid -> cid) (e : dexpr) : dexpr :=
+  match e with
+  | Cid c => Cid (g c)
+  | Const q => Const q
+  | Bin op l r => Bin op (map_expr g l) (map_expr g r)
+  end.
+(* what a mutator of link objects (seen as (from ids, to id)) does to one id *)
+Definition on_id (f : list Z * Z -> list Z * Z) (c : cid) : cid := match fst (f ([c], c)) with [x] => x | _ => c end.
+Definition env14 : Gen_datamut.dm_env (list (cid * comp)) comp unit unit := {|
+  Gen_datamut.dm_K_default := Pixel (-1);
+  Gen_datamut.dm_get_components := fun l => l;
+  Gen_datamut.dm_set_components := fun v _ => v;
+  Gen_datamut.dm_get_pixel_component_ids := fun _ => [];
+  Gen_datamut.dm_set_pixel_component_ids := fun _ l => l;
+  Gen_datamut.dm_get_world_component_ids := fun _ => [];
+  Gen_datamut.dm_set_world_component_ids := fun _ l => l;
+  Gen_datamut.dm_get_shape := fun _ => [];
+  Gen_datamut.dm_set_shape := fun _ l => l;
+  Gen_datamut.dm_hub_is_none := fun _ => true;
+  Gen_datamut.dm_broadcast := fun _ l => l;
+  Gen_datamut.dm_clear_mask_caches := fun l => l;
+  Gen_datamut.dm_is_derived := is_derived_comp;
+  Gen_datamut.dm_link_from_ids := from_ids;
+  Gen_datamut.dm_comp_shape := fun _ _ => [];
+  Gen_datamut.dm_get_component := fun l c => Gen_datamut.dm_getitem (Pixel (-1)) l c;
+  Gen_datamut.dm_resolve_component := fun _ _ => None;
+  Gen_datamut.dm_set_data := fun _ _ l => l;
+  Gen_datamut.dm_data_shape := fun _ => [];
+  Gen_datamut.dm_parent_is_none := fun _ _ => false;
+  Gen_datamut.dm_set_parent := fun _ l => l;
+  Gen_datamut.dm_map_links := fun f l =>
+    map (fun ck => (fst ck, match snd ck with Derived h e => Derived h (map_expr (on_id f) e) | k => k end)) l;
+  Gen_datamut.dm_out_of_fuel := fun _ l => l
+|}.
+Definition g_remove_fuel (n : nat) (c : cid) (l : list (cid * comp)) : list (cid * comp) :=
+  Gen_datamut.remove_component env14 n c l.
+Definition g_remove_component (c : cid) (d : ds) : ds := mkds (dshape d) (g_remove_fuel (length (dcomps d)) c (dcomps d)).
+Definition g_update_id (o n : cid) (d : ds) : ds := mkds (dshape d) (Gen_datamut.update_id env14 o n (dcomps d)).
+Definition g_reorder (l : list cid) (d : ds) : option ds :=
+  match Gen_datamut.reorder_components env14 l (dcomps d) with
+  | (l', Gen_datamut.DmOk) => Some (mkds (dshape d) l')
+  | _ => None
+  end.
+
 (* ---------- wire ---------- *)
 Definition dec_q (t : tree) : Q :=
   match t with T _ [T n _; T d _] => Qmake n (Z.to_pos d) | _ => 0%Q end.
@@ -415,7 +465,7 @@ Definition dec_op (t : tree) : option op :=
 Definition enc_struct (d : ds) : tree :=
   T 0 (map (fun ck => T 0 [leaf (fst ck); zs (from_ids (snd ck))]) (dcomps d)).
 
-Fixpoint run_ops (ops : list tree) (d : ds) : list tree :=
+Fixpoint run_ops (gen : bool) (ops : list tree) (d : ds) : list tree :=
   match ops with
   | [] => []
   | t :: r =>
@@ -423,30 +473,34 @@ Fixpoint run_ops (ops : list tree) (d : ds) : list tree :=
     | None => [err (-2)]
     | Some (OAdd c h e) =>
       match add_derived c h e d with
-      | Some d' => T 1 [enc_struct d'] :: run_ops r d'
-      | None => err 1 :: run_ops r d
+      | Some d' => T 1 [enc_struct d'] :: run_ops gen r d'
+      | None => err 1 :: run_ops gen r d
       end
-    | Some (ORemove c) => let d' := remove_component c d in T 1 [enc_struct d'] :: run_ops r d'
-    | Some (OUpdateId o n) => let d' := update_id o n d in T 1 [enc_struct d'] :: run_ops r d'
-    | Some (OQuery c v) => T 2 [enc_value (get_data (S (length (dcomps d))) d v c)] :: run_ops r d
+    | Some (ORemove c) => let d' := (if gen then g_remove_component c d else remove_component c d) in T 1 [enc_struct d'] :: run_ops gen r d'
+    | Some (OUpdateId o n) => let d' := (if gen then g_update_id o n d else update_id o n d) in T 1 [enc_struct d'] :: run_ops gen r d'
+    | Some (OQuery c v) => T 2 [enc_value (get_data (S (length (dcomps d))) d v c)] :: run_ops gen r d
     | Some (ORedefine c h e) =>
       match redefine c h e d with
-      | Some d' => T 1 [enc_struct d'] :: run_ops r d'
-      | None => err 1 :: run_ops r d
+      | Some d' => T 1 [enc_struct d'] :: run_ops gen r d'
+      | None => err 1 :: run_ops gen r d
       end
     | Some (OReorder l) =>
-      match reorder l d with
-      | Some d' => T 1 [enc_struct d'] :: run_ops r d'
-      | None => err 1 :: run_ops r d
+      match (if gen then g_reorder l d else reorder l d) with
+      | Some d' => T 1 [enc_struct d'] :: run_ops gen r d'
+      | None => err 1 :: run_ops gen r d
       end
     end
   end.
 
-(* case = (1 shape comps ops) ; comps = ((cid comp) ...) *)
+(* case = (1|2 shape comps ops) ; comps = ((cid comp) ...) *)
 Definition run_case (t : tree) : tree :=
   match t with
   | T 1 [sh; T _ cs; T _ ops] =>
     let d := mkds (to_zs sh) (map (fun k => (tag (kid 0 k), dec_comp (kid 1 k))) cs) in
-    T 0 (run_ops ops d)
+    T 0 (run_ops false ops d)
+  (* the same case with remove / update_id / reorder taken from the generated code *)
+  | T 2 [sh; T _ cs; T _ ops] =>
+    let d := mkds (to_zs sh) (map (fun k => (tag (kid 0 k), dec_comp (kid 1 k))) cs) in
+    T 0 (run_ops true ops d)
   | _ => err (-2)
   end.
